@@ -390,7 +390,8 @@ const LOTS: [u128; 12] = [1, 2, 3, 5, 10, 4, 20, 50, 100, 1000, 1_000_000, 1_000
 
 fn price_string(w: u32, w2: u32, precision: u32) -> String {
     let m = PRICE_MANTS[weighted(w, &[16, 14, 10, 10, 10, 6, 6, 6, 5, 4, 4, 4, 3, 2])];
-    let maxd = precision.min(4);
+    // mostly few decimals; one time in five the whole configured precision is in play
+    let maxd = if pick(w2.rotate_left(21), 5) == 4 { precision } else { precision.min(4) };
     let d = pick(w2, (maxd + 1) as usize) as u32;
     let dec = Dec {
         neg: false,
